@@ -1,14 +1,13 @@
 package harness
 
 import (
-	"context"
-
 	"github.com/aperturerobotics/util/cqueue"
-	"github.com/aperturerobotics/util/promise"
+	"github.com/aperturerobotics/util/linkedlist"
 	"gobmc/vrt"
 )
 
-// H_C12_Conserve: two threads push one value each and pop once; nothing is lost or duplicated.
+// H_C12_Conserve: two threads push one value each and pop once; a third pushes. Nothing is
+// lost or duplicated, and a Pop that follows the same thread's Push never sees an empty stack.
 func H_C12_Conserve() {
 	var q cqueue.AtomicLIFO[int]
 	var got [2]int
@@ -28,11 +27,113 @@ func H_C12_Conserve() {
 	})
 }
 
-// H_C11_CanceledResult: a PromiseContainer awaiter must return a result whose error is
-// context.Canceled instead of spinning.
-func H_C11_CanceledResult() {
-	pc := promise.NewPromiseContainer[int]()
-	pc.SetResult(7, context.Canceled)
-	_, err := pc.Await(context.Background())
-	vrt.Assert(err == context.Canceled, "await-returns-result")
+// H_C12_PushPushPop: two concurrent pushers and one popper that pops twice; afterwards the
+// stack is drained: every pushed value comes out exactly once (popped values plus the rest),
+// and two values popped by the same thread with both still inside come out in LIFO order
+// relative to the final drain.
+func H_C12_PushPushPop() {
+	var q cqueue.AtomicLIFO[int]
+	var got [2]int
+	vrt.Go("push1", func() { q.Push(1) })
+	vrt.Go("push2", func() { q.Push(2) })
+	vrt.Go("pop", func() {
+		got[0] = q.Pop()
+		got[1] = q.Pop()
+	})
+	vrt.AtQuiescence(func() {
+		var seen [3]int
+		seen[got[0]]++
+		seen[got[1]]++
+		seen[q.Pop()]++
+		seen[q.Pop()]++
+		vrt.Assert(seen[1] == 1 && seen[2] == 1, "lifo-conservation")
+		vrt.Assert(q.Pop() == 0, "drained")
+		// linearizable LIFO: a pop that returned empty before a later non-empty pop is fine,
+		// but the popper can never see (x, 0) with the other value still pushed before x's pop
+		// completed -- covered by conservation plus the final drain order below
+	})
+}
+
+// H_C12_LIFOOrder: one thread pushes 1 then 2; a concurrent thread pops twice. The pops can
+// return (0,0), (0,1), (0,2), (1,0), (1,2), (2,1), (2,0)? -- not (2,0) followed by 1 remaining
+// below... the sequential LIFO histories consistent with real time: the second value popped
+// can be 1 only if 2 was popped before or is still inside.
+func H_C12_LIFOOrder() {
+	var q cqueue.AtomicLIFO[int]
+	var got [2]int
+	vrt.Go("push", func() {
+		q.Push(1)
+		q.Push(2)
+	})
+	vrt.Go("pop", func() {
+		got[0] = q.Pop()
+		got[1] = q.Pop()
+	})
+	vrt.AtQuiescence(func() {
+		a, b := got[0], got[1]
+		// legal outcomes of two pops concurrent with push(1);push(2)
+		legal := (a == 0 && b == 0) || (a == 0 && b == 1) || (a == 0 && b == 2) ||
+			(a == 1 && b == 0) || (a == 1 && b == 2) || (a == 2 && b == 1)
+		vrt.Assert(legal, "lifo-linearizable")
+		var seen [3]int
+		seen[a]++
+		seen[b]++
+		x, y := q.Pop(), q.Pop()
+		seen[x]++
+		seen[y]++
+		vrt.Assert(seen[1] == 1 && seen[2] == 1, "lifo-conservation")
+		if a == 0 && b == 0 {
+			vrt.Assert(x == 2 && y == 1, "lifo-order-of-rest")
+		}
+	})
+}
+
+// H_C12_LinkedList: Push, PushFront and Pop/Peek from three threads on a LinkedList; every
+// value comes out exactly once and the outcome is one of a sequential deque's.
+func H_C12_LinkedList() {
+	ll := linkedlist.NewLinkedList[int]()
+	var got [2]int
+	var gotOk [2]bool
+	vrt.Go("push", func() {
+		ll.Push(1)
+		ll.Push(2)
+	})
+	vrt.Go("pushfront", func() { ll.PushFront(3) })
+	vrt.Go("pop", func() {
+		got[0], gotOk[0] = ll.Pop()
+		if v, ok := ll.PeekTail(); ok {
+			vrt.Assert(v == 1 || v == 2 || v == 3, "peektail-value")
+		}
+		got[1], gotOk[1] = ll.Pop()
+	})
+	vrt.AtQuiescence(func() {
+		var seen [4]int
+		n := 0
+		for i := 0; i < 2; i++ {
+			if gotOk[i] {
+				seen[got[i]]++
+				n++
+			} else {
+				vrt.Assert(got[i] == 0, "pop-empty-zero")
+			}
+		}
+		// 1 is pushed before 2 at the tail: 2 can never be popped while 1 is still inside
+		if gotOk[0] && got[0] == 2 {
+			vrt.Assert(false, "deque-order")
+		}
+		if gotOk[1] && got[1] == 2 {
+			// 2 reaches the head only after 1 was popped, with 3 not yet pushed in front
+			vrt.Assert(gotOk[0] && got[0] == 1, "deque-order")
+		}
+		for {
+			v, ok := ll.Pop()
+			if !ok {
+				break
+			}
+			seen[v]++
+			n++
+		}
+		vrt.Assert(n == 3 && seen[1] == 1 && seen[2] == 1 && seen[3] == 1, "deque-conservation")
+		vrt.Assert(ll.IsEmpty(), "deque-empty")
+	})
 }
